@@ -66,7 +66,7 @@ def takeReadToEnd : Nat → Stream → Bytes × Stream
 /-- rw_ext.rs `read_exact_to_vec`: `n != len` → `UnexpectedEof`. -/
 def readExactToVec (n : Nat) (s : Stream) : Out (Bytes × Stream) :=
   let (v, s') := takeReadToEnd n s
-  if v.length ≠ n then .err .eof else .ok (v, s')
+  if v.length = n then .ok (v, s') else .err .eof
 
 /-! ### resumable programs -/
 
